@@ -56,6 +56,16 @@ def runOps (st : St) : List String → List String
          | .ok _ => "ok"
          | .error e => "err:" ++ showKErr e) :: runOps { st with store := r.1 } ts
       | none => ["bad-op"]
+    | ["dr", n, t] =>
+      -- t simultaneous deletions of one key id: under the store's write lock they are t deletions in some order
+      match n.toNat?, t.toNat? with
+      | some n, some t =>
+        let step (acc : Store × Nat) (_ : Nat) : Store × Nat :=
+          let r := delete acc.1 n
+          (r.1, match r.2 with | .ok _ => acc.2 + 1 | .error _ => acc.2)
+        let fin := (List.range t).foldl step (st.store, 0)
+        s!"ok={fin.2};fail={t - fin.2}" :: runOps { st with store := fin.1 } ts
+      | _, _ => ["bad-op"]
     | ["e", n] =>
       match n.toNat? with
       | some n => (if «exists» st.store n then "1" else "0") :: runOps st ts
